@@ -3,11 +3,14 @@ import Femio.Driver.C01
 import Femio.Model.FistrCnt
 import Femio.Model.FistrCntCanon
 import Femio.Model.FistrCntHist
+import Femio.Model.FistrCntGroups
 /-! driver commands for C03 (FrontISTR `.cnt`)
 
 ```
 c03.write <cntin>                      -> ok 1 <list line> | ok 0
 c03.read <list group> <list line>      -> ok 1 <cntread>   | ok 0
+c03.readfiles <rect> <list line msh> <list line cnt> -> ok 1 <cntread> | ok 0   readCntFiles ⟨rect, false⟩: the node groups are read
+                                          from the !NGROUP blocks of the mesh text (rect = 1 upstream, 0 = ragged blocks accepted)
 c03.expected <cntin>                   -> ok <wf> <cntread>   (wf = decide (Femio.C03.WFCnt c), cntread = expectedCnt c:
                                           hypothesis and right-hand side of theorem C03_file_roundtrip)
 c03.hist <cfg> <cntin> <list op>       -> ok <cntin>       ((ObjSt.fresh c).run ops).view ⟨cfg⟩: cfg = 1 the object's current
@@ -92,6 +95,11 @@ def handle : List String → Option String
   | "c03.expected" :: rest => do
     let c ← run cntInP rest
     some ("ok " ++ showBool (decide (WFCnt c)) ++ " " ++ showCntRead (expectedCnt c))
+  | "c03.readfiles" :: rest => do
+    let (rect, msh, cnt) ← run (do let b ← bool; let m ← listOf str; let l ← listOf str; pure (b, m, l)) rest
+    match readCntFiles ⟨rect, false⟩ msh cnt with
+    | some r => some ("ok 1 " ++ showCntRead r)
+    | none => some "ok 0"
   | "c03.read" :: rest => do
     let (ng, ls) ← run (do let g ← listOf groupP; let l ← listOf str; pure (g, l)) rest
     match readCnt ng ls with
